@@ -83,6 +83,7 @@ Section Errors.
   Qed.
 
   (** no refusal (hence no error record) whenever everything attempted fits *)
+  Hypothesis Hok : expand_consts_ok c = true.
   Lemma fold_count_fits cap : forall ps out n,
       len (flat out) + len (flat ps) < cap -> fold_count cap ps out n = (out ++ ps, n).
   Proof.
@@ -90,7 +91,7 @@ Section Errors.
     assert (E : flat (p :: ps) = snd p ++ flat ps) by reflexivity.
     rewrite E, len_app in H.
     assert (F : str_append c cap (flat out) (snd p) = Some (flat out ++ snd p)).
-    { apply str_append_fits. rewrite len_app. lia. }
+    { apply (str_append_fits c Hok known ds). rewrite len_app. lia. }
     unfold refuses, append. rewrite F.
     rewrite IH.
     - now rewrite <- app_assoc.
